@@ -3,6 +3,13 @@
 import json, os
 V = os.path.dirname(os.path.dirname(os.path.abspath(__file__)))
 TECH = "symbolic execution of the real Python code (CrossHair 0.0.110) + SMT (z3), bounded"
+TECHS = {
+ "C07": "symbolic execution of the real functions (CrossHair + z3) and an AST-to-SMT encoding of the overload tables decided by z3, cross-checked with cvc5; sat answers replayed on the real code",
+ "C01": "translation validation: symbolic execution (CrossHair + z3) of the transpiler's output against a reference interpreter, per program skeleton, bounded inputs",
+ "C20": "symbolic execution (CrossHair + z3) with a membership precondition over the finite key set; z3 Distinct / equality queries over the tables",
+ "C05": "symbolic execution (CrossHair + z3) of lexer and lowering, bounded length; sympy's evaluation validated concretely as a trusted stub",
+ "C18": "symbolic execution (CrossHair + z3) per syntactic position, bounded payloads; counterexamples confirmed by real compile + AST/token comparison; supplementary concrete corpus",
+}
 CHECKS = {
  "C01": ("translation_validation", "Translation validation of the transpiler: for each program skeleton the Python text returned by transpile() is executed symbolically (inputs symbolic) and compared with an independent reference interpreter of the documented structure semantics applied to the parser's tree; z3 decides agreement for every input within the bounds.",
          "Bounds: skeleton list, input ranges, loop counts <=3. Trusts CrossHair/z3, the reference interpreter (written from the documents), element functions of the closed core."),
@@ -52,7 +59,7 @@ def main():
         cat, text, note = CHECKS[pid]
         checks.append({"property_id": pid, "quick_cmd": "./check %s --tier quick" % pid, "thorough_cmd": "./check %s --tier thorough" % pid,
                        "evidence_file": "evidence/%s.json" % pid, "replay_cmd_template": "./check --replay {path}", "engine": "E1-crosshair",
-                       "level_claimed": {"category": cat, "text": text, "design_ref": "DESIGN.md section 3, " + pid}, "level_note": note, "technique": TECH})
+                       "level_claimed": {"category": cat, "text": text, "design_ref": "DESIGN.md section 3 (%s) and section 8" % pid}, "level_note": note, "technique": TECHS.get(pid, TECH)})
     na = list(NA)
     for pid in sorted(CHECKS):
         if pid not in done:
@@ -60,7 +67,8 @@ def main():
     m = {"version": 1, "setup_cmd": "bin/ensure_env.sh",
          "hooks": {"guard": "MATHCAT4_VYXAL2_VERIF", "enable": "no hooks: all stubs, spies and detectors are installed at run time inside the harness process; nothing is added to /repo",
                    "baseline_off_cmd": "cd /repo && /venv/bin/python -m pytest -ra -q -p no:cacheprovider --timeout=900 --continue-on-collection-errors", "source_commits": [], "add_only": True},
-         "engines": [{"name": "E1-crosshair", "path": "vfw/", "serves_properties": done, "kind_free_text": "CrossHair 0.0.110 symbolic execution of the real Python functions with z3 5.1; skeleton x holes obligations generated from /repo's live tables on every run; counterexamples replayed on the real code before being reported"}],
+         "engines": [{"name": "E3-vysym", "path": "hlib/vysym.py", "serves_properties": ["C07"], "kind_free_text": "typed symbolic evaluation of the arithmetic element functions straight from the AST of /repo/vyxal/elements.py and helpers.py into z3 terms (Int/Real), library stubs no stronger than sympy's contract, cvc5 cross-check, candidate replay on the real functions"},
+                     {"name": "E1-crosshair", "path": "vfw/", "serves_properties": done, "kind_free_text": "CrossHair 0.0.110 symbolic execution of the real Python functions with z3 5.1; skeleton x holes obligations generated from /repo's live tables on every run; counterexamples replayed on the real code before being reported"}],
          "checks": checks, "not_applicable": na,
          "notes": "exit codes: 0 held on everything explored, 1 VIOLATION (replayed on the real code), 3 harness error (never reported as a violation). known_findings.json lists fixed defects (fix: commits in /repo)."}
     json.dump(m, open(os.path.join(V, "MANIFEST.json"), "w"), indent=1, ensure_ascii=False)
